@@ -373,7 +373,35 @@ def perturb_case(case, res):
             expect_reject([a, type(b_).like(b_, sample_rate=b_.sample_rate * f)], f"sample_rate x {f}")
             if cls in ("RadioSignal", "IntensitySignal", "FullStokesSignal"):
                 expect_reject([a, type(b_).like(b_, chan_bw=b_.chan_bw * f)], f"chan_bw x {f}")
+        # a differing rate on a piece that ALSO lacks a start time (second or third piece), alone and among stamped pieces
+        for f in (2, 0.5, 1 + 1e-3):
+            bare = type(b_).like(b_, sample_rate=b_.sample_rate * f, start_time=None)
+            expect_reject([a, bare], f"sample_rate x {f} on a piece without start time")
+            expect_reject([z[:2], z[2:3], type(b_).like(b_, sample_rate=b_.sample_rate * f, start_time=None)],
+                          f"sample_rate x {f} on the third piece, which has no start time")
+            expect_reject([strip_start(a), bare], f"sample_rate x {f}, no piece has a start time")
+        res.hits["rate mismatch on a piece without start time"] += 1
         if cls != "Signal":
+            # pieces with a trailing sample axis joined along THAT axis: displaced bands must still be refused
+            zt = type(z).like(z, np.stack([np.asarray(z.data)] * 2, axis=-1)) if cls in ("RadioSignal", "IntensitySignal", "BasebandSignal") else z
+            if zt.ndim >= 3:
+                nd_ = zt.ndim
+                for ax in (nd_ - 1, -1):
+                    try:
+                        j = pb.concatenate([zt, zt], axis=ax)
+                        if j.shape[-1] != 2 * zt.shape[-1] or any(abs(x_ - y_) > hz(zt.chan_bw) / 10 ** 6 for x_, y_ in zip(labels(j), labels(zt))):
+                            res.violation("perturb|trailing axis|valid join wrong", f"axis={ax}: {j!r}", case, {"axis": ax})
+                    except Exception as e:
+                        if cls not in ("FullStokesSignal", "DualPolarizationSignal"):      # (their last axis has a fixed length)
+                            res.violation("perturb|trailing axis|valid join rejected", f"axis={ax}: {type(e).__name__}: {e}", case, {"axis": ax})
+                    for k in (1, -2, 5):
+                        expect_reject([zt, type(zt).like(zt, center_freq=zt.center_freq + k * zt.chan_bw)],
+                                      f"center_freq moved by {k} channel, joined along the trailing axis", axis=ax)
+                    if cls in ("RadioSignal", "IntensitySignal"):
+                        expect_reject([zt, type(zt).like(zt, chan_bw=zt.chan_bw * 2)], "chan_bw x 2, joined along the trailing axis", axis=ax)
+                    expect_reject([zt, type(zt).like(zt, start_time=zt.start_time + dt)], "start time moved by a sample, joined along "
+                                  "the trailing axis", axis=ax)
+                res.hits["joins along a trailing sample axis"] += 1
             for k in (1, -1):
                 expect_reject([a, type(b_).like(b_, center_freq=b_.center_freq + k * b_.chan_bw)],
                               f"center_freq moved by {k} channel along time")
@@ -564,7 +592,7 @@ def main(argv=None):
         PID, gen_cases=gen_cases, check_case=check_case, describe=describe,
         required_hits=["empty piece", "piece without start time", "leading start-less piece (start extrapolated backwards)",
                        "grouping", "non-contiguous in time rejected", "non-contiguous in frequency rejected",
-                       "joined along frequency", "other-axis mismatch rejected", "perturbed piece rejected", "one-sample error far from the start", "unit spellings", "negative axis spelling", "piece stamped on another time scale", "narrow channels at a high sky frequency", "long span"],
+                       "joined along frequency", "other-axis mismatch rejected", "perturbed piece rejected", "one-sample error far from the start", "unit spellings", "negative axis spelling", "piece stamped on another time scale", "narrow channels at a high sky frequency", "long span", "rate mismatch on a piece without start time", "joins along a trailing sample axis"],
         assumptions=["a sequence must be rejected only if two NON-EMPTY start-bearing pieces are inconsistent by >= 1 sample "
                      "(mis-stamped empty pieces are unconstrained); rates above ~10 GHz are outside the quantifier "
                      "(Time.isclose window 40 ps)", "any exception class counts as rejection"],
